@@ -59,6 +59,91 @@ def weight(r):
     return w
 
 
+RAL_FN = {"submitNewGuardianSet": 0, "submitSetMessageFee": 1, "submitTransferFees": 2, "submitContractUpgrade": 3, "parseAndVerifyRegisterChain": 4,
+          "upgradeContract": 5, "destroyUnexecutedSequenceContracts": 6, "updateMinimalConsistencyLevel": 7, "updateRefundAddress": 8}
+HDR_RAL = ("From Coq Require Import Uint63.\nFrom Coq Require Import Strings.String.\nFrom Coq Require Import List ZArith Bool Arith Strings.Byte.\n"
+           "From WH Require Import lib.Bytes lib.Wire lib.Ralph gen.Extracted gen.ExtractedGov model.Vaa model.AlphConv model.Governance model.GovernanceRun.\n"
+           "Import ListNotations.\nOpen Scope Z_scope.\n")
+
+
+def py_parse_upgrade(p):
+    """parseContractUpgrade read by hand (independent of both translations): None = abort, else the four parts"""
+    def sl(a, b):
+        if a > b or b > len(p):
+            raise IndexError
+        return p[a:b]
+    try:
+        n = int.from_bytes(sl(33, 35), "big")
+        off = 35 + n
+        code = sl(35, off)
+        if len(p) == off:
+            return [code, b"", b"", b""]
+        h = sl(off, off + 32)
+        off += 32
+        il = int.from_bytes(sl(off, off + 2), "big")
+        off += 2
+        imm = sl(off, off + il)
+        off += il
+        ml = int.from_bytes(sl(off, off + 2), "big")
+        off += 2
+        mut = sl(off, off + ml)
+        off += ml
+        if len(p) != off:
+            return None
+        return [code, h, imm, mut]
+    except IndexError:
+        return None
+
+
+def ral_case(r, fn, payload_hex, go_abort, go_vals, tchain, gsi, entries):
+    p = bytes.fromhex(payload_hex)
+    L = tchain
+    abort = bool(go_abort)
+    vals = []
+    if fn in ("submitContractUpgrade", "upgradeContract"):
+        parts = py_parse_upgrade(p)
+        abort = parts is None
+        if parts is not None:
+            vals = [(n, "b:" + v.hex()) for n, v in zip(["newCode", "prevStateHash", "newEncodedImmutableFields", "newEncodedMutableFields"], parts)]
+    else:
+        vals = [(n, v) for n, v in sorted((go_vals or {}).items()) if n in entries.get(fn, [])]
+        if fn == "submitNewGuardianSet" and len(p) >= 37 and int.from_bytes(p[33:37], "big") != gsi + 1:
+            abort = True       # the interpreter does not know guardianSetIndexes[1]; with it, another index fails the +1 test
+        if fn == "destroyUnexecutedSequenceContracts" and len(p) >= 37 and p[35:37] == b"\0\0":
+            abort = True       # the monitor skips the contract's own `length > 0` guard
+        if fn == "parseAndVerifyRegisterChain":
+            ch = int.from_bytes(p[33:35], "big") if len(p) >= 35 else -1
+            if tchain == 0:
+                L = (ch + 1) % 65536
+            elif ch == tchain:
+                abort = True   # remoteChainId == localChainId
+    return {"fn": fn, "tchain": tchain, "gsi": gsi, "L": L, "p": payload_hex, "abort": abort, "vals": vals,
+            "req": request_of(r), "go_ral": {"abort": go_abort, "values": go_vals}}
+
+
+def ral_rows(rows, entries):
+    """translator-validation cases: every produced payload that was recorded, and its damaged copies"""
+    out = []
+    for r in rows:
+        for m, s in zip(r["msgs"], r["sent"]):
+            fn = s.get("ral_fn")
+            if not fn or fn not in RAL_FN or not s.get("payload"):
+                continue
+            if not s.get("ral_abort", "").startswith("parseAndVerifyGovernanceVAAGeneric"):
+                # (otherwise the interpreter stopped at the module / action check of an operator-named module: entry point not run)
+                out.append(ral_case(r, fn, s["payload"], s.get("ral_abort", ""), s.get("ral"), s["tchain"], s["gsidx"], entries))
+            for v in s.get("ral_variants") or []:
+                out.append(ral_case(r, fn, v["payload"], v.get("abort", ""), v.get("ral"), s["tchain"], s["gsidx"], entries))
+    return out
+
+
+def gral(c):
+    def gv(v):
+        return "RZ %s" % core.gz(int(v[2:])) if v.startswith("n:") else "RB %s" % B(v[2:])
+    return "CRal %d %d %d %d %s %s %s" % (RAL_FN[c["fn"]], c["tchain"], c["gsi"], c["L"], B(c["p"]), core.gbool(c["abort"]),
+                                        core.glist('("%s"%%string, %s)' % (n, gv(v)) for n, v in ([] if c["abort"] else c["vals"])))
+
+
 def request_of(r):
     """the compact request of a harness row (what a replay needs)"""
     return {"via": r["via"], "tag": r["tag"], "gchain": r["gchain"], "gaddr": r["gaddr"], "ts": r["ts"], "gsi": r["gsi"], "msgs": r["msgs"],
@@ -88,7 +173,7 @@ def monitors(ctx, rows, limit=14):
 
 
 def run(ctx):
-    core.run_extract(ctx, EXTRACTORS)
+    st = core.run_extract(ctx, EXTRACTORS)
     core.coq_prove(ctx, "C15", extra_targets=["model/GovernanceRun.vo"])
     if ctx.tier == "thorough":
         core.coq_thorough_audit(ctx, "C15")
@@ -132,6 +217,21 @@ def run(ctx):
                     "go: %s %s, %d VAAs" % (r["out"], r.get("err", ""), len(r["sent"])), concrete=False, replay=rp)
     ctx.cov["traces_validated_against_impl"] = len(rows)
     ctx.cov["mismatches"] = len(bad)
+    # translator validation: the generated Gallina parsers on the produced payloads vs the harness's own interpreter of the .ral text
+    rg = st.get("ral_governance", {})
+    if rg.get("ok"):
+        entries = {f: d["entries"] for f, d in rg["info"]["functions"].items()}
+        rr = ral_rows(rows, entries)
+        badr = core.run_cases(ctx, "cases_C15r", rr, HDR_RAL, "rcase", gral, "Definition ok := okr.", weight=lambda c: len(c["p"]) // 2 + 40)
+        if badr is None:
+            return
+        for i in badr[:5]:
+            c = rr[i]
+            ctx.problem("correspondence", "generated Gallina parser %s differs from the harness's interpreter of the .ral text" % c["fn"],
+                        "expected abort=%s values=%s" % (c["abort"], str(c["vals"])[:300]), concrete=False,
+                        replay=dict(c["req"], contract_function=c["fn"], payload_hex=c["p"][:600], interpreter=c["go_ral"]))
+        ctx.cov["payloads_parsed_by_generated_ralph"] = len(rr)
+        ctx.cov["ralph_translation_mismatches"] = len(badr)
     ctx.assumptions = ["the Ralph parsers are translated statement by statement (assert!, let, assignments, if/return, byteVecSlice!, u256From<N>Byte!, size!, U256 arithmetic with "
                        "overflow abort); statements that do not parse the payload (migrate!, transferTokenFromSelf!, subContractId!, isAssetAddress!, blake2b! state check) are left "
                        "out and listed in the extractor info; byteVecToAddress! is the identity on the bytes",
